@@ -35,9 +35,16 @@ func verifC23ident(c byte) bool {
 func verifC23ws(c byte) bool { return c == ' ' || c == '\t' || c == '\n' || c == '\r' }
 
 // verifC23liberal: the most generous reading. White space (including CR) anywhere between
-// tokens, any number of default/description fields in any order, type may be left out after
-// the colon.
-func verifC23liberal(s string) bool {
+// tokens, CR ignored everywhere, any number of default/description fields in any order, type
+// may be left out after the colon.
+func verifC23liberal(text string) bool {
+	// CR is not judged anywhere (CRLF source files): it is dropped before recognition
+	var s []byte
+	for k := 0; k < len(text); k++ {
+		if text[k] != '\r' {
+			s = append(s, text[k])
+		}
+	}
 	i := 0
 	skip := func() {
 		for i < len(s) && verifC23ws(s[i]) {
@@ -168,8 +175,10 @@ func verifC23strict(s string) bool {
 				}
 				i++
 			}
+			skip()
 		}
-		skip()
+		// (a name without a type "should be followed by a colon or comma": nothing else is
+		// promised, so trailing white space after a bare name is not judged)
 		if i >= len(s) {
 			return true
 		}
@@ -177,6 +186,35 @@ func verifC23strict(s string) bool {
 			return false
 		}
 		i++
+	}
+}
+
+// verifC23newlineAfterType: known finding C23-newline-after-type. A new line that follows a
+// data type (possibly after blanks) - the documented multi-line layout without default and
+// description.
+func verifC23newlineAfterType(s string) bool {
+	found := false
+	for i := 0; i < len(s); i++ {
+		if s[i] != '\n' {
+			continue
+		}
+		j := i
+		for j > 0 && (s[j-1] == ' ' || s[j-1] == '\t' || s[j-1] == '\r') {
+			j--
+		}
+		if j > 0 && verifC23ident(s[j-1]) && verifC23afterColon(s, j) {
+			found = true
+		}
+	}
+	return found
+}
+
+// verifC23known registers a known finding; with -param assume_known=1 (development only) the
+// matching inputs are set aside so that the rest of the space can be examined.
+func verifC23known(id string, pred bool) {
+	rt.KnownFinding(id, pred)
+	if rt.Param("assume_known") == 1 {
+		rt.Assume(!pred)
 	}
 }
 
@@ -265,7 +303,8 @@ func VerifC23Accept() {
 	mfp, err := ParseMxFunctionParameters(s)
 	rt.Reach("parsed")
 
-	rt.KnownFinding("C23-stray-open-bracket", verifC23strayBracket(s))
+	verifC23known("C23-stray-open-bracket", verifC23strayBracket(s))
+	verifC23known("C23-newline-after-type", verifC23newlineAfterType(s))
 
 	if err == nil {
 		rt.Reach("accepted")
@@ -391,7 +430,7 @@ func VerifC23RoundTrip() {
 			tab = rt.Or(tab, specs[i].desc[j] == '\t')
 		}
 	}
-	rt.KnownFinding("C23-tab-becomes-blank", tab)
+	verifC23known("C23-tab-becomes-blank", tab)
 
 	mfp, err := ParseMxFunctionParameters(text)
 	if mandatoryAfterOptional {
